@@ -266,6 +266,47 @@ bool Hist::opManyPoints() {
     return true;
 }
 
+// C14 "equal objects save to identical files": rebuild an EQUAL object along a different history (a fresh object that receives the content of the
+// final snapshot in one straight pass) and compare the two saved files byte for byte.  Only when the rebuilt object is snapshot-equal.
+void Hist::rebuildAndCompare() {
+    if (wild || managedEdited || offSpec || fileOffSpec || external || caseVariantNames || analogIncomplete) { bump("c14_rebuild_skipped"); return; }
+    const Snap& s = prev;
+    for (size_t f = 0; f < s.frames.size(); ++f) if (s.frames[f].empty()) { bump("c14_rebuild_skipped"); return; }
+    for (size_t g = 0; g < s.groups.size(); ++g) if (!s.groups[g].desc.empty() || s.groups[g].name.empty()) { bump("c14_rebuild_skipped"); return; }
+    std::unique_ptr<ezc3d::c3d> r(new ezc3d::c3d());
+    try {
+        for (size_t g = 0; g < s.groups.size(); ++g) {
+            const SGroup& G = s.groups[g];
+            for (size_t q = 0; q < G.params.size(); ++q) { const SParam& P = G.params[q]; Param p(P.name, P.desc);
+                if (P.type == ezc3d::INT) p.set(P.iv, P.dims);
+                else if (P.type == ezc3d::FLOAT) { std::vector<float> v(P.fv.size()); for (size_t i = 0; i < v.size(); ++i) v[i] = bitsf(P.fv[i]); p.set(v, P.dims); }
+                else if (P.type == ezc3d::CHAR) { std::vector<size_t> d(P.dims.begin() + (P.dims.empty() ? 0 : 1), P.dims.end()); p.set(P.sv, d); }
+                else { bump("c14_rebuild_skipped"); return; }
+                if (P.lock) p.lock();
+                r->parameter(G.name, p); }
+            if (G.params.empty()) { bump("c14_rebuild_skipped"); return; }
+            if (G.lock) r->lockGroup(G.name);
+        }
+        for (size_t f = 0; f < s.frames.size(); ++f) { const SFrame& F = s.frames[f]; Frame fr; Points pts; Analogs an;
+            for (size_t i = 0; i < F.pts.size(); ++i) { Point p; p.name(F.pts[i].name); p.x(bitsf(F.pts[i].v[0])); p.y(bitsf(F.pts[i].v[1])); p.z(bitsf(F.pts[i].v[2])); p.residual(bitsf(F.pts[i].v[3])); pts.point(p); }
+            for (size_t q = 0; q < F.subs.size(); ++q) { SubFrame sf; for (size_t k = 0; k < F.subs[q].size(); ++k) { Channel c; c.name(F.subs[q][k].name); c.data(bitsf(F.subs[q][k].v)); sf.channel(c); } an.subframe(sf); }
+            fr.add(pts, an); r->frame(fr); }
+    } catch (const std::exception&) { bump("c14_rebuild_failed"); return; }
+    Snap rs = take(*r);
+    { Snap a = s, b = rs;      // fields that only remember where a loaded file kept its sections are not content and are rewritten by save
+      a.h.zeros = b.h.zeros; a.h.paramAddr = b.h.paramAddr; a.h.checksum = b.h.checksum; a.h.dataStart = b.h.dataStart; a.ph = b.ph;
+      for (size_t g = 0; g < a.groups.size() && g < b.groups.size(); ++g) for (size_t q = 0; q < a.groups[g].params.size() && q < b.groups[g].params.size(); ++q) if (a.groups[g].name == "POINT" && a.groups[g].params[q].name == "DATA_START") a.groups[g].params[q].iv = b.groups[g].params[q].iv;
+      if (a != b) { bump("c14_rebuild_not_equal"); if (log.verbose) { std::vector<std::string> dd = diff(a, b, 4); for (size_t i = 0; i < dd.size(); ++i) log.line("REBUILD-DIFF %s", dd[i].c_str()); } return; } }        // (e.g. a header field that only a particular history produces): not comparable, no verdict
+    std::string p1 = savePath("orig"), p2 = savePath("rebuilt"); Outcome o1, o2;
+    log.pre("write", "original"); VF_TRY(o1, obj->write(p1)); log.pre("write", "rebuilt"); VF_TRY(o2, r->write(p2));
+    bump("c14_equal_objects_compared");
+    if (o1.threw != o2.threw) log.viol("C14", "equal_objects_save_differently/one_refused", "the object and a snapshot-equal object built along another history: one save threw, the other did not");
+    else if (!o1.threw) { std::string a = readFileBytes(p1), b = readFileBytes(p2);
+        if (a != b) { size_t off = 0; while (off < a.size() && off < b.size() && a[off] == b[off]) ++off; log.viol("C14", "equal_objects_save_differently/bytes", "the object and a snapshot-equal object built along another history are saved to different files: first difference at offset " + std::to_string((unsigned long long)off) + ", sizes " + std::to_string((unsigned long long)a.size()) + "/" + std::to_string((unsigned long long)b.size())); } }
+    Outcome none; log.ev("rebuild_and_compare", shapeSig(s), none);
+    unlink(p1.c_str()); unlink(p2.c_str());
+}
+
 struct OpW { const char* name; int w; };
 
 void Hist::run() {
@@ -326,6 +367,7 @@ void Hist::run() {
     bool hadRefusal = counts.count("refused") && counts["refused"] > 0;
     opRoundTrip(false);
     if (hadRefusal) bump("c10_saved_and_reloaded_after_refusal");
+    if (o.geti("rebuild", 0)) rebuildAndCompare();
     if (o.dumpFinal) {
         char b[700]; snprintf(b, sizeof b, "%s/final_%ld.c3d", o.out.c_str(), idx);
         Outcome so; VF_TRY(so, obj->write(b));
